@@ -228,6 +228,60 @@ pub fn gen(prop: &str, seed: u64, index: u64, _tier: Tier) -> Case {
             p.set_file(&s.path, B(d));
         }
     }
+    // temp directives whose target is a generated file of the project itself (the source's own
+    // output, another source's output), and blocks of very many consecutive directive lines
+    for s in &a.sources {
+        if rng.chance(1, 8) {
+            let mut d = p.file(&s.path).map(|b| b.0.clone()).unwrap_or_default();
+            let target = if rng.chance(2, 3) {
+                crate::names::file_name(&s.out).to_string()
+            } else {
+                let o = &a.sources[rng.below(a.n())];
+                gen::rel_path(&s.dir, &o.out)
+            };
+            let body = *rng.pick(&["", "-body\n", "-file 0 begins\n", "-b1\n-b2\n"]);
+            let l = format!("-TXTPP#temp {target}\n{body}~\n");
+            let starts: Vec<usize> = std::iter::once(0)
+                .chain(d.iter().enumerate().filter(|(_, b)| **b == b'\n').map(|(i, _)| i + 1))
+                .collect();
+            let at = *rng.pick(&starts);
+            d.splice(at..at, l.into_bytes());
+            p.set_file(&s.path, B(d));
+        }
+    }
+    if a.n() > 0 && rng.chance(1, 30) {
+        let s = &a.sources[rng.below(a.n())];
+        let mut d = p.file(&s.path).map(|b| b.0.clone()).unwrap_or_default();
+        let n = *rng.pick(&[20_000usize, 60_000]);
+        let mut block = String::with_capacity(n * 8);
+        match rng.below(4) {
+            0 => {
+                block.push_str("-TXTPP#temp many_lines.tmp\n");
+                for k in 0..n {
+                    block.push_str(&format!("-l{k}\n"));
+                }
+            }
+            1 => {
+                block.push_str("// TXTPP#write first\n");
+                for _ in 0..n {
+                    block.push_str("// w\n");
+                }
+            }
+            2 => {
+                for _ in 0..n {
+                    block.push_str("TXTPP#\n");
+                }
+            }
+            _ => {
+                block.push_str("# TXTPP# comment\n");
+                for _ in 0..n {
+                    block.push_str("# more\n");
+                }
+            }
+        }
+        d.splice(0..0, block.into_bytes());
+        p.set_file(&s.path, B(d));
+    }
     // fuzz include targets
     for path in ["plain1.txt", "sub/plain2.txt", "lib/plain3.txt", "plain4.txt"] {
         if rng.chance(1, 3) {
@@ -260,7 +314,11 @@ pub fn gen(prop: &str, seed: u64, index: u64, _tier: Tier) -> Case {
     let modes = [ModeS::Build, ModeS::Needed, ModeS::Verify, ModeS::Clean];
     let mut ops = vec![];
     let n_ops = if rng.chance(1, 4) { 2 } else { 1 };
-    for k in 0..n_ops {
+    // a sixth of the cases: a build, then verify with the same options
+    let build_verify = rng.chance(1, 6);
+    let bv_shell = *rng.pick(&["echo", "echo -n", "false"]);
+    let bv_tn = rng.chance(2, 3);
+    for k in 0..(if build_verify { 2 } else { n_ops }) {
         let mut cfg = RunCfg::simple(*rng.pick(&modes), "", inputs.clone(), 1);
         cfg.k = *rng.pick(&[0usize, 1, 1, 2, 3, 4, 5, 8, 13, 16]);
         cfg.recursive = rng.chance(2, 3);
@@ -277,6 +335,22 @@ pub fn gen(prop: &str, seed: u64, index: u64, _tier: Tier) -> Case {
             "cat @ROOT@/flood.txt",
         ]))
         .to_string();
+        if build_verify {
+            cfg.mode = if k == 0 {
+                if rng.chance(1, 3) {
+                    ModeS::Needed
+                } else {
+                    ModeS::Build
+                }
+            } else {
+                ModeS::Verify
+            };
+            cfg.shell = bv_shell.to_string();
+            cfg.trailing_newline = bv_tn;
+            if cfg.k == 0 {
+                cfg.k = 2;
+            }
+        }
         let s = rng.next();
         ops.push(Op::Run {
             cfg,
